@@ -299,7 +299,7 @@ def run(ctx):
     small = list(all_small_configs())
     if ctx.thorough:
         chosen = small
-        ctx.cov["exhaustive"] = "all layouts 1..4 per axis x 8 periodicities (512), 3 copy-level assignments each"
+        ctx.cov["exhaustively_enumerated_part"] = "all layouts 1..4 per axis x 8 periodicities (512), 3 copy-level assignments each"
     else:
         chosen = [c for c in small if c in SPECIAL] + rng.sample(small, 44)
     cfgs = []
@@ -328,7 +328,8 @@ def run(ctx):
         % ("ALL layouts 1..4 per axis x 8 periodicities" if ctx.thorough else "%d seeded layouts <= 4x4x4 incl. 1 and 2 subgrids per periodic axis" % len(chosen),
            ctx.budget(4, 60)))
     ctx.cov["tolerance"] = {"tables/layout/copies/fold": "identical", "update_photon_position": "bit-identical",
-                            "trace per-cell estimators": "rel 1e-10 + 1e-12 of one cell crossing", "trace positions/tau": "rel 1e-10"}
+                            "trace per-cell estimators": "rel 1e-10 + 1e-12 of one cell crossing",
+                            "trace positions/tau": "1e-10 of the box scale / of (tau_target + optical depth across the box scale), x (1 + hand-overs/1000): round-off accumulates per hand-over"}
 
     if have_driver:
         n, impl, model, orc = ctx.correspond("tables", h, drv, t_ops, cmp=cmp, oracle_key=okey("tables"))
@@ -371,7 +372,7 @@ def run(ctx):
         impl_only(ctx, "layout", h, l_ops, group_start=lambda op: op.startswith("new"))
 
     # ---- stream 3: split-vs-unsplit tracing through real subgrids (implementation-only oracle)
-    tr = corpus_trace + trace_ops(rng, ctx.budget(250, 8000))
+    tr = corpus_trace + trace_ops(rng, ctx.budget(250, 30000))
     hist = run_trace(ctx, h, tr)
     if ctx.thorough:
         missing = [DIRNAMES[i] for i in range(1, 27) if not hist[i]]
@@ -407,8 +408,8 @@ MANIFEST = dict(
          "DensitySubGridCreator for ALL layouts nx,ny,nz >= 1, periodicities and copy levels: neighbour_geometric, neighbour_mutual "
          "(incl. 1 and 2 subgrids per periodic axis), copies_wiring (every neighbour of a copy is the original or a copy of the true "
          "neighbour, in range, onto when the neighbour has fewer copies), fold_once (update_original_counters visits every copy exactly "
-         "once under its own original, also after update_copies), handover_position / handover_cell (same physical point and same "
-         "global cell after the out->in repositioning, exact arithmetic).  split_invariance is stated in full but proved only as "
+         "once under its own original, also after update_copies), getNeighbours_faces, handover_position / handover_cell (same physical "
+         "point and same global cell after the out->in repositioning, exact arithmetic).  split_invariance is stated in full but proved only as "
          "split_invariance_partial from the named single-step commutation hypothesis StepCommutes (needs the C02 ray-march model).",
     note="Trusted: Lean kernel + 3 standard axioms; the table generator (exhaustive evaluation of the real functions, three "
          "magnitudes per sign); hand model of create_subgrid/create_copies/update_original_counters tied by identical neighbour "
